@@ -77,11 +77,40 @@ def trace_minimize(c):
     return [snap(h) for h in res.history], res
 
 
+def trace_default_termination(c, how):
+    """a run that relies on the algorithm's *own default termination* (nothing passed to setup / minimize),
+    driven to its end; returns the final state only. `how`: 'asktell' drives the object itself,
+    'minimize' lets pymoo copy it."""
+    prob, algo = build(c)
+    if how == "minimize":
+        from pymoo.optimize import minimize
+        res = minimize(prob, algo, seed=c["seed"], verbose=False)
+        return [dict(snap(res.algorithm), final=True)]
+    algo.setup(prob, seed=c["seed"], verbose=False)
+    g = 0
+    while algo.has_next() and g < 1500:
+        algo.next()
+        g += 1
+    return [dict(snap(algo), final=True)]
+
+
+def trace_reuse(c):
+    """the same algorithm object handed to minimize() twice (pymoo deep-copies it each time): the
+    second run must equal the first"""
+    from pymoo.optimize import minimize
+    prob, algo = build(c)
+    minimize(prob, algo, ("n_gen", c["n_gen"]), seed=c["seed"] + 3, verbose=False)
+    res = minimize(prob, algo, ("n_gen", c["n_gen"]), seed=c["seed"], verbose=False, save_history=True)
+    return [snap(h) for h in res.history]
+
+
 def first_diff(a, b):
     """index of the first generation at which two traces differ (None if equal)"""
     if len(a) != len(b):
         return min(len(a), len(b)), "traces have %d and %d generations" % (len(a), len(b))
     for g, (x, y) in enumerate(zip(a, b)):
+        if x.get("final") and y.get("final") and x.get("n_gen") != y.get("n_gen"):
+            return g + 1, "generation counters differ (%s vs %s)" % (x.get("n_gen"), y.get("n_gen"))
         for k in ("X", "F"):
             if x[k].shape != y[k].shape or not bits_equal(x[k], y[k]):
                 return g + 1, "%s of the population differs" % k
@@ -120,7 +149,8 @@ def workload(c, rng):
         algo.next()
 
 
-VARIANTS = ["repeat", "fresh-process", "minimize", "external-order", "next-vs-asktell", "fresh-process", "interleaved", "history"]
+VARIANTS = ["repeat", "fresh-process", "minimize", "external-order", "next-vs-asktell", "fresh-process", "interleaved", "history",
+            "default-termination", "reuse-object"]
 
 
 class Repro:
@@ -148,8 +178,15 @@ class Repro:
         v = c["variant"]
         rng = np.random.RandomState(c["vseed"])
         try:
-            base = trace_asktell(c)
-            if v == "repeat":
+            base = trace_asktell(c) if v != "default-termination" else None
+            if v == "default-termination":
+                # first a run driven on the object itself to the end of its default termination, then
+                # the same configuration on a fresh object through minimize()
+                base = trace_default_termination(c, "asktell")
+                other = trace_default_termination(c, "minimize")
+            elif v == "reuse-object":
+                other = trace_reuse(c)
+            elif v == "repeat":
                 other = trace_asktell(c)
             elif v == "workload":
                 workload(c, rng)
@@ -212,7 +249,9 @@ class Repro:
                     "next-vs-asktell": "next() and ask/evaluate/tell differ",
                     "history": "recording the history changes the run",
                     "fresh-process": "a run in a fresh process differs from the same run after other work",
-                    "interleaved": "a run interleaved with another instance differs from the solo run"}[v]
+                    "interleaved": "a run interleaved with another instance differs from the solo run",
+                    "default-termination": "a run under the default termination differs after an earlier run in the same process",
+                    "reuse-object": "the second minimize() of one algorithm object differs from a fresh run"}[v]
             return ["%s (%s, DE/%s/%d/%s, F=%r): %s" % (what, rec.cfg["algo"], rec.cfg["sel"], rec.cfg["y"], rec.cfg["cross"],
                                                      rec.cfg["Fcfg"], rec.out["diff"])]
         return []
